@@ -3,6 +3,7 @@ real compiler -> artefacts -> Lean driver (elaborator, denotation, circuit seman
 -> classification of every failure as listed finding or violation."""
 from __future__ import annotations
 import os
+import re
 
 import collections
 
@@ -130,6 +131,13 @@ def classify_mismatch(rec, verdict, mm):
         if src and src not in ids and f"{src}_{name}_output_anchor" not in ids and src in rep:
             src = rep[src]
     starts = set()
+    # the enable condition of the k-th placed entity: its cone starts at that entity
+    m = re.match(r"entity(\d+)\.enable$", name or "")
+    if m:
+        placed = rec.get("placed") or []
+        k = int(m.group(1))
+        if k < len(placed) and placed[k] in ids:
+            starts.add(placed[k])
     if src:
         if src in ids:
             starts.add(src)
